@@ -52,16 +52,22 @@ def replay(info, ce):
     arrs = [rng.randn(n) + 3 * j for j in range(k)]
     c = eqsig.Cluster([a.copy() for a in arrs], 0.5, master_index=master)
     if info['op'] == 'same_start':
-        c.same_start(start=0, end=1)
-        m_avg = float(np.mean(c.values_by_index(master)[:3]))
+        win = info.get('window', [0, 1])
+        if win is None:
+            c.same_start()
+            win = [0, 1]
+        else:
+            c.same_start(start=win[0], end=win[1])
+        lo, hi = int(win[0] / 0.5), int(win[1] / 0.5) + 1
+        m_avg = float(np.mean(c.values_by_index(master)[lo:hi]))
         bad = []
         for j in range(k):
             v = np.asarray(c.values_by_index(j))
             if j == master:
                 if not np.allclose(v, arrs[j]):
                     bad.append('master %d changed' % j)
-            elif abs(float(np.mean(v[:3])) - m_avg) > 1e-9:
-                bad.append('signal %d section average %.6g != master %.6g' % (j, float(np.mean(v[:3])), m_avg))
+            elif abs(float(np.mean(v[lo:hi])) - m_avg) > 1e-9:
+                bad.append('signal %d section average %.6g != master %.6g' % (j, float(np.mean(v[lo:hi])), m_avg))
         return dict(status='confirmed' if bad else 'not-reproduced', observed={'problems': bad},
-                    detail='Cluster of %d signals, master_index=%d, same_start(start=0, end=1): %s' % (k, master, bad or 'all aligned'))
+                    detail='Cluster of %d signals, master_index=%d, same_start over the window %s s (dt = 0.5): %s' % (k, master, info.get('window', 'default'), bad or 'all aligned'))
     return dict(status='not-replayable', detail='no replay for ' + info['op'])
